@@ -21,7 +21,7 @@ SHARDS = {'quick': 8, 'thorough': 16}
 ORIGINS = ['early-listener', 'listener', 'reaction-login-disconnect',
            'reaction-status-json', 'decoder', 'exit-callback',
            'outgoing-listener', 'status-phase-listener',
-           'outgoing-listener-then-disconnect']
+           'outgoing-listener-then-disconnect', 'fallback-connect-refused']
 
 
 class E0(Exception):
@@ -76,6 +76,11 @@ def scenario(run, rng, origin, chain, final_mode, pv, hook_log):
                   'reaction-status-json': _json.JSONDecodeError,
                   'decoder': _struct.error}.get(origin) or \
         rng.choice((E0, E1, E2, F0, KeyError))
+    if origin == 'fallback-connect-refused':
+        # the negotiation's own recovery (reconnect with the default version
+        # after an unanswered status query) fails: the exception raised inside
+        # the reactor's hook replaces the end-of-stream and is routed
+        fault_type = ConnectionRefusedError
     if origin == 'status-phase-listener':
         # (EOFError is excluded: in the negotiation phase it is, by design,
         # taken as 'server does not answer status queries' - see C15)
@@ -106,7 +111,13 @@ def scenario(run, rng, origin, chain, final_mode, pv, hook_log):
         if hs is None:
             return
         first = io.index == 0
-        if hs['next_state'] == 1 and origin == 'status-phase-listener':
+        if hs['next_state'] == 1 and origin == 'fallback-connect-refused' \
+                and first:
+            io.recv_frame()
+            # from now on the client's target refuses connections
+            conn.options.port = refuser.port
+            io.half_close()
+        elif hs['next_state'] == 1 and origin == 'status-phase-listener':
             io.recv_frame()
             io.send_frame(0x00, ref.encode_field('string', _json.dumps({
                 'version': {'name': 'vf', 'protocol': pv},
@@ -155,6 +166,7 @@ def scenario(run, rng, origin, chain, final_mode, pv, hook_log):
             state['eof'][io.index] = False
 
     server = mcserver.Server(handler)
+    refuser = mcserver.RefusingPort()
     log = pc.EventLog()
     calls = []                   # (handler id, exc type name, exc object)
     received = {}
@@ -300,6 +312,8 @@ def scenario(run, rng, origin, chain, final_mode, pv, hook_log):
                 boom, clientbound.play.ChatMessagePacket,
                 early=origin == 'early-listener')
         fired = []
+        if origin == 'fallback-connect-refused':
+            conn.allowed_proto_versions = {pv, 47 if pv != 47 else 340}
         if origin == 'status-phase-listener':
             def boom_status(packet):
                 if not fired:
@@ -389,6 +403,11 @@ def scenario(run, rng, origin, chain, final_mode, pv, hook_log):
             bad('routing/reraised-another-exception', 'the exception that '
                 'escaped the thread is not the one that was routed',
                 hook=reraised[:2], expected=exp_recorded)
+        if reconnects:
+            # (the reconnect's TCP connection is established by the kernel
+            # before the server's accept loop has picked it up)
+            pc.wait_for(lambda: state['accepted'] >= 2, 5.0)
+            server.join(5.0)
         if not reconnects:
             if state['eof'].get(0) is not True:
                 bad('containment/not-closed', 'the connection was not closed '
@@ -419,6 +438,9 @@ def scenario(run, rng, origin, chain, final_mode, pv, hook_log):
                     served=state.get('served'), by=reconnects,
                     server_errors=[e[1:] for e in server.errors][:2])
         # the same object can connect again
+        if origin == 'fallback-connect-refused':
+            conn.options.port = server.port
+            conn.allowed_proto_versions = {pv}
         before = len(exits)
         n_before = state['accepted']
         try:
@@ -438,6 +460,7 @@ def scenario(run, rng, origin, chain, final_mode, pv, hook_log):
         return None
     finally:
         server.stop()
+        refuser.close()
         if conn is not None:
             try:
                 conn.disconnect(immediate=True)
@@ -544,6 +567,108 @@ def foreign_connect_case(run, rng, pv, idx):
         pc.safe_disconnect(conn)
 
 
+def user_reconnect_during_handler_case(run, rng, pv, idx):
+    """Delay injection at an existing suspension point (the start of a
+    thread): a *user* thread reconnects while the failing networking thread is
+    still inside an exception handler, so the new thread is chained behind it;
+    the failing thread then ends before the new one has run its first
+    statement.  The new thread must still take the connection over, and the
+    object must be usable afterwards."""
+    import time
+    from minecraft.networking import connection as C
+    from minecraft.networking.packets import clientbound
+    codec = codec_for(pv)
+    state = {'accepted': 0, 'served': []}
+
+    def handler(io):
+        state['accepted'] += 1
+        if scripts.read_handshake(io) is None:
+            return
+        scripts.login_offline(io, pv, None, codec)
+        if io.index == 0:
+            cid, cp = codec.encode('cb_chat', {
+                'json': '{"text":"boom"}', 'position': 0,
+                'sender': '00000000-0000-0000-0000-000000000001'})
+            io.send_frame(cid, cp)
+        else:
+            did, dp = codec.encode('play_disconnect', {'reason': '"bye"'})
+            io.send_frame(did, dp)
+            state['served'].append(io.index)
+        try:
+            io.wait_eof(8.0)
+        except mcserver.ScriptTimeout:
+            pass
+    server = mcserver.Server(handler)
+    rec = pc.Recorder()
+    in_handler, reconnected = threading.Event(), threading.Event()
+    orig_run = C.NetworkingThread.run
+
+    def late_start(self):
+        if self.previous_thread is not None:
+            time.sleep(0.3)          # the predecessor ends in the meantime
+        return orig_run(self)
+    w = {'directed': 'user-reconnect-during-handler', 'pv': pv}
+    conn = None
+    try:
+        conn = pc.make_connection(server.port, rec, allowed_versions={pv},
+                                  early_listener=False)
+
+        def boom(_p):
+            raise E1('from listener')
+        conn.register_packet_listener(boom, clientbound.play.ChatMessagePacket)
+
+        def slow_handler(exc, info):
+            in_handler.set()
+            reconnected.wait(8.0)
+        conn.register_exception_handler(slow_handler, E1)
+        conn.connect()
+        if not in_handler.wait(10.0):
+            return 'the fault never reached the handler'
+        C.NetworkingThread.run = late_start
+        errs = []
+        try:
+            conn.disconnect()
+            conn.connect()               # from the user thread
+        except Exception as e:
+            errs.append(e)
+        reconnected.set()
+        ok2 = pc.wait_idle(conn, 15.0)
+        C.NetworkingThread.run = orig_run
+        run.count('user_reconnects_during_handler')
+        if errs:
+            run.violation('reuse/connect-raised', 'connect() from a user '
+                          'thread while the failing thread was in its handler '
+                          'raised', dict(w, error=repr(errs[0])))
+            return None
+        pc.wait_for(lambda: 1 in state['served'], 5.0)
+        if not ok2 or 1 not in state['served']:
+            run.violation('containment/reconnected-session-killed', 'the '
+                          'session a user thread started during exception '
+                          'handling did not run to its normal end', dict(
+                              w, served=state['served'], idle=ok2))
+            return None
+        try:
+            conn.connect()
+        except Exception as e:
+            run.violation('reuse/connect-raised', 'connect() after the '
+                          'failure raised', dict(w, error=repr(e),
+                                                 third_connect=True))
+            return None
+        ok3 = pc.wait_idle(conn, 15.0)
+        pc.wait_for(lambda: 2 in state['served'], 5.0)
+        if not ok3 or 2 not in state['served']:
+            run.violation('reuse/reconnect-failed', 'a later connect() on the '
+                          'same object did not produce a working session',
+                          dict(w, served=state['served']))
+        return None
+    finally:
+        C.NetworkingThread.run = orig_run
+        reconnected.set()
+        server.stop()
+        if conn is not None:
+            pc.safe_disconnect(conn)
+
+
 def gen_chain(rng):
     pool = [(E0,), (E1,), (E2,), (F0,), (Exception,), (), (E2, F0),
             (KeyError, ValueError), (LookupError,), (OSError,),
@@ -620,6 +745,16 @@ def run(run):
                                       'early': False,
                                       'behaviour': 'disconnect',
                                       'new_type': None})
+                    if origin == 'fallback-connect-refused':
+                        # (the target refuses connections: handlers cannot
+                        # reconnect in this scenario)
+                        if final_mode == 'reconnects':
+                            continue
+                        for h in chain:
+                            if h['behaviour'] == 'reconnect':
+                                h['behaviour'] = 'return'
+                            if h['behaviour'] == 'reconnect-raise':
+                                h['behaviour'] = 'raise-new'
                     if final_mode == 'reconnects':
                         # one reconnect per failure: a second connect() would
                         # be refused as InvalidState, which is correct
@@ -656,8 +791,21 @@ def run(run):
             run.case(('foreign-connect', i))
             if err:
                 run.inconclusive_because('foreign connect %d: %s' % (i, err))
+        for i in range(20 if thorough else 4):
+            if not run.mine(i + 3):
+                continue
+            err = None
+            for attempt in range(2):
+                err = user_reconnect_during_handler_case(
+                    run, rng, rng.choice((757, 404, 340)), i)
+                if err is None:
+                    break
+            run.case(('user-reconnect-during-handler', i))
+            if err:
+                run.inconclusive_because('user reconnect %d: %s' % (i, err))
     finally:
         threading.excepthook = old_hook
+    run.require('user_reconnects_during_handler', 2)
     run.require('foreign_connects', 2)
     run.require('faults_injected', 20)
     run.require('origins', len(ORIGINS))
